@@ -73,7 +73,7 @@ WELLFORMED = ("well-formed values only (C01 clause): identifier tag/column names
 PROPS = {
     "C01": {
         "quick": [phase(16, 4.0, 900)],
-        "thorough": [phase(16, 20.0, 3000)],
+        "thorough": [phase(16, 15.0, 3000)],
         "rule": ("cases = model values from the stratified generator (stream 'scalar': every scalar kind in turn; stream 'value': "
                  "lists/dicts/grids nested to depth 4 (quick) / 6 (thorough)); each is encoded with to_zinc_string, decoded with "
                  "zinc::decode::from_str and compared component-wise in the harness model (f64 by bits, Ref dis, zone name, "
@@ -88,7 +88,7 @@ PROPS = {
     },
     "C02": {
         "quick": [phase(16, 4.0, 900)],
-        "thorough": [phase(16, 20.0, 3000)],
+        "thorough": [phase(16, 15.0, 3000)],
         "rule": ("cases = the C01 generator's model values; each is serialised through serde_json::to_string / to_vec / to_value and "
                  "deserialised through from_str / from_slice / from_value (all 9 combinations, round robin), and scalars and top-level "
                  "collections additionally through their own typed Serialize+Deserialize impl; compared component-wise in the harness "
@@ -104,7 +104,7 @@ PROPS = {
     },
     "C10": {
         "quick": [phase(16, 4.0, 900)],
-        "thorough": [phase(16, 30.0, 3000)],
+        "thorough": [phase(16, 8.0, 3000)],
         "crash_is_violation": True,
         "rule": ("cases = Values built directly through public fields/constructors with every String field arbitrary (empty, NUL, "
                  "non-ASCII first char, controls), NaN/INF with units, the default unit, out-of-range dates, leap-second times, "
@@ -122,7 +122,7 @@ PROPS = {
     },
     "C12": {
         "quick": [phase(16, 8.0, 900)],
-        "thorough": [phase(16, 40.0, 3000)],
+        "thorough": [phase(16, 200.0, 3000)],
         "rule": ("cases = (a) a fixed pool of ~110 near-colliding Values (+0/-0, same magnitude with different/absent/default unit, Refs "
                  "differing only in dis, dicts differing in one key or value, list prefixes, equal instants in 4 zones, the same payload "
                  "under different kinds, grids differing in meta/column meta/ver) and typed pools (Number, Coord, Ref, Dict, Grid, Column, "
@@ -139,7 +139,7 @@ PROPS = {
     },
     "C19": {
         "quick": [phase(16, 4.0, 900)],
-        "thorough": [phase(16, 40.0, 3000)],
+        "thorough": [phase(16, 12.0, 3000)],
         "rule": ("cases = generated values (every scalar kind in turn + nested values): exactly one of the 18 is_* predicates is true and it "
                  "is the model's kind; HaystackKind::from(&Value); every TryFrom<&Value> (17 target types) and every HaystackDict getter "
                  "(14) succeeds iff the kind matches and returns the stored payload (strict model equality), absent keys give None; the 15 typed "
@@ -153,7 +153,7 @@ PROPS = {
     },
     "C04": {
         "quick": [phase(16, 4.0, 900)],
-        "thorough": [phase(16, 20.0, 3000)],
+        "thorough": [phase(16, 15.0, 3000)],
         "rule": ("cases = the C01 generator's model values; for each, (A) the spec-derived reference writer (harness/src/refzinc.rs) produces a "
                  "random legal spelling (space after commas, trailing list comma, space- or comma-separated dict tags, k vs k:M, exponent "
                  "/ '_' (integer, fraction and exponent digits) / trailing-.0 number spellings, blanks before commas and inside brackets, \\uXXXX (either hex case) and \\b \\f escapes, LF vs CRLF, 'Z' vs 'Z UTC', numeric "
@@ -205,7 +205,7 @@ PROPS = {
     },
     "C07": {
         "quick": [phase(16, 4.0, 900)],
-        "thorough": [phase(16, 30.0, 3000)],
+        "thorough": [phase(16, 13.0, 3000)],
         "rule": ("cases = (filter, record) pairs. (a) term matrix, complete: tag/not-tag/every comparison operator x every literal of a "
                  "25-literal pool, on every state of tag 'a' (missing, Null, each of 31 near-colliding values, empty list, list holding the "
                  "value, empty dict) = one cell each; (b) random and/or/paren filters (paths of 1-3 segments through nested dicts) on random "
@@ -222,7 +222,7 @@ PROPS = {
     },
     "C08": {
         "quick": [phase(16, 4.0, 900)],
-        "thorough": [phase(16, 40.0, 3000)],
+        "thorough": [phase(16, 25.0, 3000)],
         "rule": ("cases = filter trees: (a) the bounded space of all trees 't', 't and t', 't or t', 't and t or t', 't or t and t', "
                  "'(t or t) and t' over a set of 46 small terms (~2.96e5 trees; enumerated completely across shards in thorough, strided "
                  "sample in quick); (b) random trees to paren depth 3 with every term kind and every literal kind the syntax admits "
@@ -258,7 +258,7 @@ PROPS = {
     },
     "C15": {
         "quick": [phase(16, 1.0, 900)],
-        "thorough": [phase(16, 20.0, 3000)],
+        "thorough": [phase(16, 200.0, 3000)],
         "exhaustive": True,
         "rule": ("exhaustive over the unit database: every unit x every one of its identifiers: get_unit(id) is that unit (pointer "
                  "equality); '<x><id>' (Zinc) and {\"_kind\":\"number\",\"val\":x,\"unit\":id} (Hayson) decode to that unit and the exact "
@@ -273,7 +273,7 @@ PROPS = {
     },
     "C16": {
         "quick": [phase(16, 1.0, 900)],
-        "thorough": [phase(16, 20.0, 3000)],
+        "thorough": [phase(16, 60.0, 3000)],
         "exhaustive": True,
         "rule": ("exhaustive over all ordered pairs of database units (443^2 = 196,249) x 5 magnitudes: convert_to is Ok iff the dimension "
                  "vectors are equal (both absent counts as equal; both byte units), equals (x*sa+oa-ob)/sb recomputed by the harness to "
@@ -288,7 +288,7 @@ PROPS = {
     },
     "C13": {
         "quick": [phase(16, 2.0, 900)],
-        "thorough": [phase(16, 12.0, 3000)],
+        "thorough": [phase(16, 5.0, 3000)],
         "exhaustive": True,
         "rule": ("(a) exhaustive over the shipped Project Haystack defs (tests/defs/defs.zinc): for every symbol supertypes_of, all_supertypes_of, "
                  "subtypes_of, all_subtypes_of, inheritance, choices_for, conjuncts_defs, has/has_subtype, fits_marker/val/choice/entity, "
@@ -387,7 +387,7 @@ PROPS = {
     },
     "C05": {
         "quick": [phase(16, 4.0, 900)],
-        "thorough": [phase(16, 20.0, 3000)],
+        "thorough": [phase(16, 15.0, 3000)],
         "rule": ("cases = the C01 generator's model values; (A) the spec-derived Hayson reference writer (harness/src/refjson.rs) writes a "
                  "document with members of every object in random order (incl. _kind anywhere), '_kind':'dict' present/absent, grid meta "
                  "absent / {} / with ver, column meta absent/present, tz present/absent for UTC, 'Z' vs '+00:00', unit-less numbers plain or "
@@ -425,7 +425,7 @@ PROPS = {
     },
     "C18": {
         "quick": [phase(16, 1.0, 900), phase(8, 0.5, 900, flavour="asan")],
-        "thorough": [phase(16, 20.0, 3000), phase(16, 2.0, 3000, flavour="asan"), phase(4, 1.0, 1200, flavour="tsan", streams=["threads"]),
+        "thorough": [phase(16, 20.0, 3000), phase(16, 1.5, 3000, flavour="asan"), phase(4, 1.0, 1200, flavour="tsan", streams=["threads"]),
                      phase(16, 0.3, 1500, flavour="valgrind"),
                      phase(16, 1.0, 2400, flavour="miri")],
         "crash_is_violation": True,
